@@ -613,5 +613,5 @@ def execute(plan):
     res = scenario.run(plan, world, main)
     res["nontrivial"] = bool(world.fault_counts) or len(plan["tasks"]) >= 2
     res["ndelivered"] = sum(len(v) for v in ref.delivered.values())
-    res["violations"] = [list(v) for v in world.violations]
+    scenario.finish(res, world, None)
     return res
